@@ -224,6 +224,7 @@ func (m *Model) ruleREADCAS(r *Results) {
 		}
 	}
 	casReaders := map[*ssa.Function]int{} // helper -> index of the result that is the row's CAS
+	casFields := map[*ssa.Function]int{}  // ... and, when that result is a row struct, the field holding it
 	for _, sc := range m.scanCalls() {
 		fn := sc.Fn
 		if sc.Site == nil || sc.Dests == nil || fn.Parent() != nil || !loopReaders[fn] {
@@ -244,10 +245,21 @@ func (m *Model) ruleREADCAS(r *Results) {
 		if casIdx < 0 {
 			continue
 		}
-		cell := sc.Dests[casIdx]
+		cell := stripConv(sc.Dests[casIdx])
+		// the CAS may be scanned into a field of a local row struct that is returned as a whole
+		var rowObj ssa.Value
+		rowField := -1
+		if fa, isFA := cell.(*ssa.FieldAddr); isFA {
+			if al, isAl := stripConv(fa.X).(*ssa.Alloc); isAl {
+				rowObj, rowField = al, fa.Field
+			}
+		}
 		isLoad := func(v ssa.Value) bool {
 			ld, ok := stripConv(v).(*ssa.UnOp)
-			return ok && ld.Op == token.MUL && ld.X == cell
+			if !ok || ld.Op != token.MUL {
+				return false
+			}
+			return sameCell(ld.X, cell) || (rowObj != nil && stripConv(ld.X) == rowObj)
 		}
 		resIdx := -1
 		for _, ret := range returnsOf(fn) {
@@ -284,7 +296,7 @@ func (m *Model) ruleREADCAS(r *Results) {
 			if !reach[ret.Block().Index] {
 				continue
 			}
-			if !isLoad(ret.Results[resIdx]) {
+			if !isLoad(ret.Results[resIdx]) && !madeNotMissing(ret) {
 				bad = m.instrPos(ret)
 			}
 		}
@@ -295,7 +307,7 @@ func (m *Model) ruleREADCAS(r *Results) {
 				continue
 			}
 			for _, ins := range b.Instrs {
-				if st, ok := ins.(*ssa.Store); ok && st.Addr == cell && !isLoad(st.Val) {
+				if st, ok := ins.(*ssa.Store); ok && sameCell(st.Addr, cell) && !isLoad(st.Val) {
 					bad = m.instrPos(st) // (`return cas, ...` re-stores the cell's own value: not an overwrite)
 				}
 			}
@@ -306,6 +318,9 @@ func (m *Model) ruleREADCAS(r *Results) {
 		}
 		if bad == "" {
 			casReaders[fn] = resIdx
+			if rowObj != nil {
+				casFields[fn] = rowField
+			}
 		}
 		r.check(bad == "", rule, m.declName(fn)+" / returns the row's CAS whenever a row was read", pos, "every return after a successful scan returns the scanned CAS", "a return that follows a successful scan of the row does not return the row's CAS (e.g. 0 for a tombstone): the read-modify-write loops built on this helper then write back with a CAS that does not identify the version they read")
 	}
@@ -332,11 +347,26 @@ func (m *Model) ruleREADCAS(r *Results) {
 				if ex == nil {
 					return
 				}
+				fld, isRow := casFields[h]
+				isCas := func(v ssa.Value) bool {
+					v = stripConv(v)
+					if !isRow {
+						return v == ex
+					}
+					// the row struct itself, or its CAS field
+					if v == ex {
+						return true
+					}
+					f, ok := v.(*ssa.Field)
+					return ok && f.Field == fld && stripConv(f.X) == ex
+				}
 				wIdx := -1
+				wholeRow := false
 				for _, ret := range returnsOf(w) {
 					for j, rv := range ret.Results {
-						if stripConv(rv) == ex {
+						if isCas(rv) {
 							wIdx = j
+							wholeRow = isRow && stripConv(rv) == ex
 						}
 					}
 				}
@@ -347,7 +377,7 @@ func (m *Model) ruleREADCAS(r *Results) {
 				reach[c.Block().Index] = true
 				bad := ""
 				for _, ret := range returnsOf(w) {
-					if reach[ret.Block().Index] && stripConv(ret.Results[wIdx]) != ex {
+					if reach[ret.Block().Index] && !isCas(ret.Results[wIdx]) && !madeNotMissing(ret) {
 						bad = m.instrPos(ret)
 					}
 				}
@@ -356,6 +386,9 @@ func (m *Model) ruleREADCAS(r *Results) {
 					pos = bad
 				} else {
 					casReaders[w] = wIdx
+					if wholeRow {
+						casFields[w] = fld
+					}
 				}
 				n++
 				r.check(bad == "", rule, m.declName(w)+" / hands on the CAS "+h.Name()+" read", pos, "every return behind the call returns the helper's CAS result", "a return behind the call of "+h.Name()+" does not hand on the CAS it read (e.g. `return 0, err`): for a tombstone the helper reports 'missing' together with the tombstone's CAS, which a CAS-guarded sub-document write or update on a deleted document needs in order to be honoured")
@@ -1358,4 +1391,58 @@ func sameMapValue(a, b ssa.Value) bool {
 	la, ok1 := a.(*ssa.UnOp)
 	lb, ok2 := b.(*ssa.UnOp)
 	return ok1 && ok2 && la.Op == token.MUL && lb.Op == token.MUL && la.X == lb.X
+}
+
+// madeNotMissing: the return reports an error that is made on the spot and is not the
+// missing-key error (unreadable xattrs, a decoding failure): nobody continues with the CAS then.
+func madeNotMissing(ret *ssa.Return) bool {
+	if len(ret.Results) == 0 {
+		return false
+	}
+	return errMadeNotMissing(ret.Results[len(ret.Results)-1], 0)
+}
+
+func errMadeNotMissing(ev ssa.Value, depth int) bool {
+	if ev == nil || !isErrorType(ev.Type()) || depth > 3 {
+		return false
+	}
+	switch x := ev.(type) {
+	case *ssa.MakeInterface:
+		return !isNamed(x.X.Type(), sgbucketPath, "MissingError")
+	case *ssa.Call:
+		if f := x.Common().StaticCallee(); f != nil && f.Pkg != nil && (f.Pkg.Pkg.Path() == "fmt" || f.Pkg.Pkg.Path() == "errors") {
+			return true
+		}
+		if f := x.Common().StaticCallee(); f != nil {
+			return helperErrsNotMissing(x, f.Signature.Results().Len()-1, depth)
+		}
+	case *ssa.Extract:
+		if call, ok := x.Tuple.(*ssa.Call); ok {
+			return helperErrsNotMissing(call, x.Index, depth)
+		}
+	}
+	return false
+}
+
+// helperErrsNotMissing: every error the (pure, row-independent) helper can return at index idx is
+// nil or made on the spot and not the missing-key error.
+func helperErrsNotMissing(call *ssa.Call, idx int, depth int) bool {
+	f := call.Common().StaticCallee()
+	if f == nil || f.Blocks == nil || f.Pkg == nil || idx < 0 {
+		return false
+	}
+	rets := returnsOf(f)
+	for _, ret := range rets {
+		if idx >= len(ret.Results) {
+			return false
+		}
+		rv := ret.Results[idx]
+		if c, ok := rv.(*ssa.Const); ok && c.Value == nil {
+			continue
+		}
+		if !errMadeNotMissing(rv, depth+1) {
+			return false
+		}
+	}
+	return len(rets) > 0
 }
